@@ -63,6 +63,10 @@ type GenCfg struct {
 	PLight             float64  // probability that the perturbation probabilities are scaled by 0.25
 }
 
+// The process runs in a local time zone that is not UTC, as most servers outside a CI container do: nothing in the
+// documented coercions depends on the machine's zone (zone-less layouts are read as UTC, unix seconds are instants).
+func init() { time.Local = time.FixedZone("HARNESS", 5*3600+1800) }
+
 func DefaultCfg(mode string) GenCfg {
 	return GenCfg{
 		MaxDepth: 3, MaxFields: 4, MaxElems: 4, MaxTests: 3, Mode: mode,
@@ -611,6 +615,9 @@ func (g *Gen) genPosts(n *Node, label string) {
 		n.Posts = append(n.Posts, g.post())
 		if len(g.Cfg.PostBehaviours) == 0 {
 			return
+		}
+		if n.Posts[len(n.Posts)-1].Behaviour == "ctxissue" {
+			return // (it returns nil: what later transforms of the node do after it is not modelled)
 		}
 	}
 }
@@ -1411,10 +1418,24 @@ type Case struct {
 	Exec  Exec  `json:"exec"`
 }
 
+// NormalisePosts cuts a node's PostTransforms after one that reports through the context and returns nil (what later
+// transforms of the node do after it is not modelled).
+func NormalisePosts(root *Node) {
+	root.Walk(func(n *Node) {
+		for i, p := range n.Posts {
+			if p.Behaviour == "ctxissue" {
+				n.Posts = n.Posts[:i+1]
+				break
+			}
+		}
+	})
+}
+
 // GenCase draws a whole case.
 func GenCase(t *rapid.T, cfg GenCfg) Case {
 	g := NewGen(t, cfg)
 	root := g.GenNode(cfg.MaxDepth, true)
+	NormalisePosts(root)
 	if cfg.ForceCatch {
 		var prims []*Node
 		has := false
